@@ -118,7 +118,11 @@ def cmd_run(a):
         if not meta["verification"].get("confirmed"):
             continue
         props = [meta["property"]] + [p for p in a.also if p != meta["property"]]
-        r = run_checks(os.path.join(os.path.dirname(mf), "patch.diff"), props, a.tier)
+        try:
+            r = run_checks(os.path.join(os.path.dirname(mf), "patch.diff"), props, a.tier)
+        except RuntimeError as e:  # the repository moved on (a later fix touches the same lines): re-base the patch by hand
+            print(f"{meta['name']:10s} PATCH-DOES-NOT-APPLY {str(e)[:120]}")
+            continue
         meta.setdefault("checks", {})[a.tier] = r
         meta["what_was_run"] = f"tools/seeded.py run --tier {a.tier}: patch applied to a scratch copy of /repo (VERIF_REPO), ./check <property> {a.tier}"
         json.dump(meta, open(mf, "w"), indent=1)
